@@ -13,6 +13,12 @@ Vocabulary (`Lemmas/RebatchDefs.lean`): `colRows b c` rows of column `c` of batc
 
 All theorems: every `target > 0`, every column count `nc ≥ 1`, every finite well-formed stream,
 both ways of giving the column count (`numColumns = nc` explicit, `numColumns = 0` deduced).
+
+`C19_no_error`, `C19_conserve`, `C19_rect`, `C19_sizes`, `C19_count`, `C19_aligned`, `C19_rows`,
+`C19_online`, `C19_identity`, `C19_errors`; `C19_treefn` for the double re-batching of
+`TreeFn._iterate` (model `treeFn`).  Not stated as theorems (covered by the correspondence only):
+the container kind of the emitted columns, and the `TypeError` branch for unsupported containers.
+Known finding F23 (`Assign` + `batch_size`) is outside `_iterate`: see `Witness/C19.lean`.
 -/
 namespace MlModel.C19
 open MlModel.Rebatch
@@ -133,6 +139,27 @@ theorem C19_aligned {t nc numColumns : Nat} (ht : 0 < t) (hnc : 0 < nc)
     (by simp [hj]) (by rw [hb.colRows_len hc]; exact hi)
   rw [← List.map_take, sum_length_colRows (hrect.take j) hc] at this
   exact this.symm
+
+/-- The whole property as one equation on *rows* (a row = the tuple of the `i`-th elements of all
+columns): the rows of the emitted batches, read across the columns, are exactly the input rows in
+order, followed by the padding rows. -/
+theorem C19_rows [Inhabited α] {t nc numColumns : Nat} (ht : 0 < t) (hnc : 0 < nc)
+    (hcols : numColumns = nc ∨ numColumns = 0) (pad : Option α) {bs : List (Batch α)}
+    (hwf : WF nc bs) :
+    (run t numColumns pad bs).out.flatMap rowsOf =
+      bs.flatMap rowsOf ++ (padding t pad (totalRows bs)).map fun p => List.replicate nc p := by
+  have hrect := C19_rect ht hnc hcols pad hwf
+  have hcons := fun c hc => C19_conserve ht hnc hcols pad hwf (c := c) hc
+  generalize (run t numColumns pad bs).out = out at *
+  have hlen : totalRows out = totalRows bs + (padding t pad (totalRows bs)).length := by
+    rw [← length_colConcat hrect hnc, hcons 0 hnc, List.length_append, length_colConcat hwf hnc]
+  rw [flatMap_rowsOf hrect, flatMap_rowsOf hwf, hlen,
+    rowsOfCols_congr (Y := fun c => colConcat bs c ++ padding t pad (totalRows bs)) _ hcons,
+    rowsOfCols_append _ (fun c hc => length_colConcat hwf hc)]
+  congr 1
+  cases pad with
+  | none => simp [padding, rowsOfCols]
+  | some p => simp only [padding, List.length_replicate, List.map_replicate]; exact rowsOfCols_replicate nc _ p
 
 /-- Online behaviour: what has been yielded after consuming a prefix of the input is a prefix of
 the final output (nothing is retracted), and it consists of *all* complete batches available so
